@@ -226,6 +226,24 @@ class Shapes:
                 return None
             ij = pos[2] == Const('ij')
             return (la[0], lb[0]) if ij else (lb[0], la[0])
+        if name in ('ravel', 'm:ravel', 'm:flatten', 'flatten') and pos:
+            src = g(0)
+            if src is not None and len(src) == 1:
+                return src                  # flattening a vector leaves it as it is
+            if src is not None and len(src) == 0:
+                return (ONE,)
+        if name == 'ogrid':
+            # open grid: component k has the length of slice k on axis k and 1 on the others
+            k_ = pos[-1].const_value() if isinstance(pos[-1], Poly) else None
+            dims = []
+            for i_, s in enumerate(pos[:-1]):
+                if not isinstance(s, Slice) or k_ is None:
+                    return None
+                ln = self.slice_len(s, None)
+                if ln is None:
+                    return None
+                dims.append(ln if i_ == int(k_) else ONE)
+            return tuple(dims)
         if name == 'mgrid':
             dims = []
             for s in pos[:-1]:
